@@ -44,7 +44,7 @@ PROPS = {
     ),
     "C05": dict(
         family="eco",
-        mc=[("basket_q", 600)],
+        mc=[("basket_q", 600)], mc_t=[("basket_t", 1500)],
         inv=["C05_Backed"],
         step=["C05_PutMints", "C05_TakeBurns", "C05_OnlyPutTake"],
         tinv=["T_C05_ChainInvariantAgrees"],
@@ -65,7 +65,7 @@ PROPS = {
     ),
     "C11": dict(
         family="eco",
-        mc=[("basket_q", 600)],
+        mc=[("basket_q", 600)], mc_t=[("basket_t", 1500)],
         inv=[],
         step=["C11_PutOnlyIf", "C11_PutIf", "C11_OldestFirst", "C11_AutoRetire"],
         tinv=[],
@@ -123,6 +123,18 @@ PROPS = {
             dict(family="data", mc_module="MC_Data", trace_module="TraceData", mc=[], inv=[], step=[],
                  tinv=["T_C10_SameDigests"], tstep=["T_C10_FailedLeavesNoTrace"], observers="replica",
                  gen=[("data_inj_q", 16, 20), ("data_buckets_q", 8, 20)], gen_t=[("data_inj_q", 100, 25), ("data_buckets_q", 60, 25)]),
+        ],
+    ),
+    "C20": dict(
+        family="intertx", mc_module="MC_Intertx", trace_module="TraceIntertx",
+        mc=[("intertx_q", 120)],
+        inv=["C20_OwnPort"], step=["C20_Forward"], tinv=["T_C20_NoPanic"],
+        gen=[("intertx_g", 40, 25)], gen_t=[("intertx_g", 400, 30)],
+    ),
+    "C17": dict(
+        family="eco", mc=[],
+        parts=[
+            dict(family="eco", mc=[], inv=[], step=[], tinv=["T_C17_Lists", "T_C17_Singles"], observers="query"),
         ],
     ),
     "C04": dict(
